@@ -30,7 +30,15 @@ impl SubCheck for BfsOrder {
         p.max_n = tier.pick(30, 80);
         p.max_deg = 4;
         p.shapes = vec![(4, Shape::Uniform), (3, Shape::Dag(4)), (2, Shape::Cyclic), (1, Shape::Comb), (1, Shape::Forest)];
-        (graph_strategy(p), block_strategy()).prop_map(|(g, block)| GCase { g, cfg: RunCfg::plain(Strat::Bfs, 1).with_block(block) }).boxed()
+        // (a depth limit does not change the claim: whatever is evaluated is evaluated by depth, so a
+        // reported witness is still the nearest one)
+        (graph_strategy(p), block_strategy(), proptest::option::weighted(0.3, 2usize..8))
+            .prop_map(|(g, block, depth)| {
+                let mut cfg = RunCfg::plain(Strat::Bfs, 1).with_block(block);
+                cfg.target_max_depth = depth;
+                GCase { g, cfg }
+            })
+            .boxed()
     }
     fn check(&self, case: &GCase, cov: &mut Cov) -> Result<(), Fail> {
         let g = &case.g;
@@ -64,6 +72,7 @@ impl SubCheck for BfsOrder {
         };
         let mut nontrivial = false;
         cov.label_if(g.props.iter().any(|p| p.exp == Exp::Eventually), "with_eventually_bystander");
+        cov.label_if(case.cfg.target_max_depth.is_some() && !disc.is_empty(), "discovery_under_a_depth_limit");
         for (k, p) in g.props.iter().enumerate() {
             if p.exp == Exp::Eventually {
                 continue;
@@ -108,7 +117,7 @@ impl SubCheck for BfsOrder {
         Ok(())
     }
     fn mandatory(&self) -> Vec<&'static str> {
-        vec!["discovery_checked", "witness_depth>=2_with_alternatives", "join", "multi_init", "oob_successor", "with_eventually_bystander"]
+        vec!["discovery_checked", "witness_depth>=2_with_alternatives", "join", "multi_init", "oob_successor", "with_eventually_bystander", "discovery_under_a_depth_limit"]
     }
 }
 
